@@ -21,6 +21,7 @@ from bibtexparser.writer import BibtexFormat
 from ..canon import canon, content
 
 ID = "C06"
+LEAN = True  # cases are distinct by construction; see engine.Acc
 RULE = (
     "libraries = every sequence of <=2 (quick) / <=3 (thorough) blocks over a 14-block universe (entries with 0/1/3 fields, keys shorter/equal/"
     "longer than the column, two entries with different longest keys, string, preamble, both comment kinds, four kinds of failed blocks incl. "
